@@ -105,6 +105,20 @@ func freshable(k string) bool {
 func (fi *FrameInfo) writeClass(fr *Frame, addr ssa.Value, ws map[string]bool) {
 	if fr == nil {
 		if root, _ := rootOf(addr); root != nil {
+			if c, ok := root.(*ssa.Call); ok && returnsFresh(c.Call.StaticCallee()) {
+				// a store into the object a constructor-like callee just allocated and returned
+				// (n.copy()): as good as the function's own allocation
+				tmp := map[string]bool{}
+				fi.writeClass0(nil, addr, tmp)
+				for k := range tmp {
+					if freshable(k) {
+						ws[freshOnly+k] = true
+					} else {
+						ws[k] = true
+					}
+				}
+				return
+			}
 			if a, ok := root.(*ssa.Alloc); ok && a.Heap && !isLocalAlloc(a) {
 				tmp := map[string]bool{}
 				fi.writeClass0(nil, addr, tmp)
@@ -523,6 +537,26 @@ func (fi *FrameInfo) of(f *ssa.Function, c *ssa.CallCommon) map[string]bool {
 // bodyOf is the inferred write set of f (its contract's explicit assigns included).
 func (fi *FrameInfo) bodyOf(f *ssa.Function) map[string]bool {
 	return fi.of(f, nil)
+}
+
+// returnsFresh: every return of f hands back (as its only result) an object f allocated itself.
+func returnsFresh(f *ssa.Function) bool {
+	if f == nil || len(f.Blocks) == 0 || f.Signature.Results().Len() != 1 {
+		return false
+	}
+	n := 0
+	for _, b := range f.Blocks {
+		for _, in := range b.Instrs {
+			if r, ok := in.(*ssa.Return); ok {
+				a, ok := r.Results[0].(*ssa.Alloc)
+				if !ok || !a.Heap {
+					return false
+				}
+				n++
+			}
+		}
+	}
+	return n > 0
 }
 
 // freshBigRecv: v is new(big.Int), or the result of a big.Int method whose receiver is.
